@@ -392,6 +392,12 @@ impl<'text> Iterator for SplitLines<'text> {
             },
         }
     }
+
+    fn size_hint(&self) -> (usize, Option<usize>) {
+        // `ExactSizeIterator` requires an exact hint.
+        let len = self.len();
+        (len, Some(len))
+    }
 }
 
 impl<'text> std::iter::FusedIterator for SplitLines<'text> {}
